@@ -429,8 +429,26 @@ def run_property(prop, tier, seed, replay=None):
     violations = []      # (case, signature, detail)
     preludes = {}        # case key -> cases decided before it in the same process
     fallbacks = {}       # case key of a shrunk failure -> the first (confirmed) failure of that shard
+    # the phases that run in this (parent) process have no per-case watchdog of their own: a phase that does not end
+    # is a harness error (exit 2), never a verdict
+    phase = {'name': 'self-test'}
+    limit_s = 1800 if tier == 'quick' else 4 * 3600
+
+    def _stuck():
+        sys.stdout.write('HARNESS-ERROR %s: phase %r of the parent process did not end within %d s\n' % (prop.id, phase['name'], limit_s))
+        sys.stdout.flush()
+        try:
+            import faulthandler
+            faulthandler.dump_traceback(all_threads=True)
+        finally:
+            os._exit(2)
+    import threading as _threading
+    wd = _threading.Timer(limit_s, _stuck)
+    wd.daemon = True
+    wd.start()
     # 1. oracle self-test
     selfinfo = _in_big_thread(prop.selftest, tier)
+    phase['name'] = 'regression replays'
     # 2. replay tier + 3. known findings
     stats = Stats()
     regdir = os.path.join(VERIF, 'regressions', prop.id)
@@ -453,11 +471,13 @@ def run_property(prop, tier, seed, replay=None):
     for k in known:
         print('KNOWN-FINDING: property=%s %s' % (prop.id, k.get('what', '')))
     # extra deterministic checks
+    phase['name'] = 'extra checks'
     for case, out in _in_big_thread(prop.extra_checks, tier, seed):
         stats.add(prop, case, out)
         if out.status == 'fail' and is_known(prop, known, case, out) is None:
             violations.append((case, out.signature, out.detail))
     # 4. generated search, sharded
+    wd.cancel()
     nshards = prop.shards[tier]
     total = prop.cases[tier]
     per = max(1, total // nshards)
